@@ -152,6 +152,7 @@ func fatalOutcome(stderr string) Outcome {
 			site = p[0]
 		}
 	}
+	o.OnStack = stackClasses(o.Frames)
 	o.Site = "fatal:" + kind + "@" + site
 	if kind == "out-of-memory" {
 		// where the allocation fails is arbitrary: the site is the kind alone
@@ -214,7 +215,11 @@ func (p *Pool) run(d *Doc, ms int, trace int) Outcome {
 	if w == nil {
 		w = startWorker()
 	}
+	t0 := time.Now()
 	o, ok := w.call(d, ms, trace)
+	if o.Ms == 0 {
+		o.Ms = int(time.Since(t0) / time.Millisecond) // dead worker: duration seen by the parent
+	}
 	if !ok {
 		w.kill()
 		w = nil
